@@ -23,6 +23,12 @@ CHECKS={
  'C07':dict(technique='property-based testing: generated semantic computations (diff/intersect/union/keyof/indexed access) materialised through the frontend\'s own sequence and judged by round trip, an independent polarity-aware value-level evaluator pair, printability and reference-integrity checks; a third of the cases also compiled from TypeScript source and run in Node',
    text='Exploration: 10k computations per quick run over the format-free fragment incl. recursive named types; every materialised type is re-interpreted (engine round trip and value by value) and checked for unprintable constructs and dangling/duplicate helper names.',
    note='Trusted: the polarity-aware evaluators (exact positive / open negative reading, exactness judged on merged records); timeouts are inconclusive here.', ref='DESIGN.md section 2 C07'),
+ 'C08':dict(technique='metamorphic property-based testing: one generated denotation printed twice with independent meaning-preserving spellings; validate results (default and strict) on generated values and hash256 must coincide',
+   text='Exploration over pairs of programs restricted to the rewrites the statement lists; the emitted runtime classes are diffed to measure which optimisation fired differently.',
+   note='Trusted: TypeScript-equivalence of the two spellings by construction of the renderer.', ref='DESIGN.md section 2 C08'),
+ 'C13':dict(technique='property-based testing and exhaustive sweep: differential test of the hand-written SHA-256 against node:crypto on the tapped byte stream (all payload lengths 0..300 x UTF-8 widths x write splits, plus random sequences); metamorphic equal-pair and one-edit-mutant pairs for hash256/hash of compiled validators',
+   text='Exploration: the digest routine is compared with an independent SHA-256 on every block/padding boundary; structural-fingerprint claims are checked as relations over generated pairs (equal spellings => equal digests; behaviourally different one-edit mutants => different digests).',
+   note='Trusted: node:crypto; the tap on updateBytes; the separating value is found among generated values (a mutant pair without one is not judged).', ref='DESIGN.md section 2 C13'),
  'C11':dict(technique='property-based testing: strict-mode verdicts of generated validators vs reference strict membership, with undeclared keys injected at random object positions',
    text='Exploration weighted to intersections/unions/nesting/records; oracle = reference "no undeclared key at any object position" + strict implies default.',
    note='Trusted: reference declared-key computation (intersection = union of members\' keys, union = matching branch, index signature admits all keys).', ref='DESIGN.md section 2 C11'),
